@@ -557,6 +557,15 @@ namespace
                 flag("program");
             });
     }
+    // number of distinct control blocks behind a set of shared_ptrs (copies share one)
+    std::size_t sp_blocks(const std::vector<std::shared_ptr<val>>& sp)
+    {
+        std::set<const void*> s;
+        for (auto& p : sp)
+            s.insert(p.get());
+        return s.size();
+    }
+
     // allocate_shared / allocate_unique bound to two leaves
     void smart_kind(const args& a)
     {
@@ -621,6 +630,23 @@ namespace
                                     return c;
                                 }
                             };
+                            if (r.chance(30))
+                            {
+                                op("allocate_unique<T> on leaf%d, the constructor throws", x % 2 + 1);
+                                thrower::countdown() = 1;
+                                try
+                                {
+                                    auto one = allocate_unique<thrower>(x % 2 ? L2 : L1);
+                                    viol("C10", "C10/" + kind + "/harness", "the injected constructor failure did not propagate");
+                                }
+                                catch (int)
+                                {
+                                }
+                                h1->check();
+                                h2->check();
+                                count("throwing_scalar_creations");
+                                continue;
+                            }
                             std::size_t n = r.range(1, 6);
                             thrower::countdown() = long(r.range(1, n));
                             op("allocate_unique<T[]>(%zu) on leaf%d, element %ld throws", n, x % 2 + 1, thrower::countdown());
@@ -641,6 +667,9 @@ namespace
                         }
                         h1->check();
                         h2->check();
+                        if (h1->live.size() + h2->live.size() != sp_blocks(sp) + up.size())
+                            viol("C10", "C10/" + kind + "/memory-not-returned", "%zu blocks are live on the allocators, the smart pointers own %zu",
+                                 h1->live.size() + h2->live.size(), sp_blocks(sp) + up.size());
                         count("smart_ops");
                     }
                 }
